@@ -126,14 +126,15 @@ func (r *run) sample(cfg Config, res Result, why string) {
 func (r *run) bfs(cfg Config, depth int) cfgStats {
 	st := cfgStats{Config: cfg.Name}
 	type node struct {
-		key  string
-		path []int
+		key    string // observed real state: deduplication
+		mirror string // what the recorder shows when the path is replayed: replay self-check
+		path   []int
 	}
 	root := parallel(cfg, r.alpha, r.universe, []job{{}})[0]
 	r.traces++
 	r.report(cfg, nil, root)
 	seen := map[string]bool{root.Key: true}
-	frontier := []node{{key: root.Key}}
+	frontier := []node{{key: root.Key, mirror: root.MirrorKey}}
 	st.States = 1
 	for d := 0; d < depth && len(frontier) > 0; d++ {
 		if r.c.Expired() {
@@ -152,13 +153,13 @@ func (r *run) bfs(cfg Config, depth int) cfgStats {
 			parent := frontier[i/len(r.alpha)]
 			evs := pathEvents(r.alpha, jobs[i].path)
 			// self-check: replaying the parent's path on a fresh server must reproduce its state
-			prev := root.Key
+			prev := root.MirrorKey
 			if len(res.Steps) > 1 {
 				prev = res.Steps[len(res.Steps)-2].State
 			}
-			if prev != parent.key {
+			if prev != parent.mirror {
 				probe.Cleanup()
-				common.Broken("replay of %v reached %s, expected %s (state key is not a function of the history?)", jobs[i].path, prev, parent.key)
+				common.Broken("replay of %v reached %s, expected %s (replay is not deterministic)", jobs[i].path, prev, parent.mirror)
 			}
 			r.report(cfg, evs, res)
 			st.Transitions++
@@ -182,7 +183,7 @@ func (r *run) bfs(cfg Config, depth int) cfgStats {
 				seen[res.Key] = true
 				st.States++
 				st.MaxDepth = d + 1
-				next = append(next, node{key: res.Key, path: jobs[i].path})
+				next = append(next, node{key: res.Key, mirror: res.MirrorKey, path: jobs[i].path})
 			}
 		}
 		frontier = next
